@@ -98,7 +98,7 @@ def _check_main(ctx, res) -> None:
     res.add("R07.2", "_is_future", okf, isf.where, "future test compares the module name with '__future__'" if okf else
             "_is_future no longer tests for the module name '__future__'")
     si = idx.need_func("rope.refactor.importutils.module_imports.ModuleImports.sort_imports")
-    moves = [c for c in calls_in(si.node) if is_self_attr(c.func, "_move_imports")]
+    moves = [c for c in calls_in(si.node) if call_name(c) == "_move_imports"]  # a method or a module-level helper
     src = {}
     for nd in walk_local(si.node):
         if isinstance(nd, ast.Assign) and isinstance(nd.targets[0], ast.Name):
